@@ -15,6 +15,10 @@ HAND = [
     ("lib", "library rtlLib \"*.v\" -incdir \"aaa\";\ninclude \"bbb\";;"),
     ("pp", "`ifdef A\n x\n`elsif B\n`else\n y `M(1, (2,3)) \n`endif\n`define M(a, b=2) a+b \\\n c\n\"s\" \\e \n"),
     ("pp", ""),
+    # constructs whose nodes are assembled by hand-written folds (chains, left-recursive expressions)
+    ("sv", "module m; initial begin x = obj.a().b().c().d(); y = o.f(1).g(2, 3).h().i(); end endmodule\n"),
+    ("sv", "module m; assign z = a + b * c - d / e % f ** g; assign w = p ? q : r ? s : t; assign v = a[1][2].b[3].c; endmodule\n"),
+    ("sv", "module m; initial begin a.b.c.d = 1; e[1].f[2].g = h::i::j; end endmodule\n"),
 ]
 ROOT = {"sv": "SourceText", "lib": "LibraryText", "pp": "PreprocessorText"}
 
@@ -37,6 +41,14 @@ def oracle(tree, lines):
     exp = [dbgtree.tok(t) for t in pre]
     for l in lines:
         if l.startswith("iter "):
+            # source order: the tokens come out at increasing offsets
+            last = 0
+            for w in l.split()[1:]:
+                if w.startswith("@"):
+                    off, ln = int(w[1:].split(":")[0]), int(w[1:].split(":")[1])
+                    if off < last:
+                        return "iteration is not in source order: a token at offset %d comes after one that ends at %d" % (off, last)
+                    last = off + ln
             if l.split()[1:] != exp:
                 return "iteration is not the pre-order of the tree (first difference at index %d)" % next(
                     (i for i, (a, b) in enumerate(zip(l.split()[1:] + ["?"] * len(exp), exp + ["?"])) if a != b), -1)
@@ -139,6 +151,12 @@ def check(ctx):
             if first_bad is None:
                 first_bad = (k, src, cr)
             continue
+        # the second run goes through the preprocessor: a text it rejects (a library path like ./*.v reads as an
+        # unterminated block comment there) has no API tree to compare
+        k2 = [i for i, l in enumerate(lines) if l.startswith("run 2")]
+        if plain and k2 and any(l.startswith("err ") for l in lines[k2[0]:]):
+            plain = False
+            ctx.count("api_run_rejected_by_preprocessor")
         dbg = [l for l in lines if l.startswith("dbg ")]
         if not dbg:
             ctx.count("rejected_or_no_tree")
